@@ -278,6 +278,15 @@ def rcharsOp (U : UFacts) (s : KStr) : Res := strTuple (rcharsLoop U (s.len + 1)
 /-- byte level: `chars` is the grapheme segmentation -/
 def charsB (U : UFacts) (s : Bytes) : List Bytes := graphemes U s
 
+/-- byte level `chars().reversed()`: repeatedly take the last cluster (`gLast`) -/
+def rsegs (gLast : Bytes → Nat) : Nat → Bytes → List Bytes
+  | 0, _ => []
+  | fuel + 1, s =>
+    if s.isEmpty then []
+    else s.drop (s.length - gLast s) :: rsegs gLast fuel (s.take (s.length - gLast s))
+
+def rcharsB (U : UFacts) (s : Bytes) : List Bytes := rsegs U.gLast (s.length + 1) s
+
 /-- `CharIndices::next`, collected: ranges of the clusters of `input[index..]` -/
 def charIndicesLoop (U : UFacts) (bs : Bytes) : Nat → Nat → List (Nat × Nat)
   | 0, _ => []
@@ -519,14 +528,19 @@ def isFloatSyntax (bs : Bytes) : Bool :=
           !r.isEmpty && r.all isDigit
         else false
 
+/-- `strip_prefix("0x")` / `("0o")` / `("0b")`: the radix and the rest -/
+def radixPrefix : Bytes → Option (Nat × Bytes)
+  | 48 :: 120 :: r => some (16, r)
+  | 48 :: 111 :: r => some (8, r)
+  | 48 :: 98 :: r => some (2, r)
+  | _ => none
+
 /-- `string.to_number()` without a base -/
 def toNumberB (bs : Bytes) : Res :=
   let int? :=
-    match bs with
-    | 48 :: 120 :: r => fromStrRadix 16 r
-    | 48 :: 111 :: r => fromStrRadix 8 r
-    | 48 :: 98 :: r => fromStrRadix 2 r
-    | _ => fromStrRadix 10 bs
+    match radixPrefix bs with
+    | some (radix, r) => fromStrRadix radix r
+    | none => fromStrRadix 10 bs
   match int? with
   | some n => .int n
   | none => if isFloatSyntax bs then .float else .null
